@@ -52,6 +52,12 @@ func genCfgKey(r *Rng) string {
 	sec := Pick(r, c11Sections)
 	mid := Pick(r, c11Mids)
 	last := Pick(r, c11Lasts)
+	if r.Chance(20) {
+		// a sub-section named like a LAST component of a documented key (`access`, `lfsurl`, `url` …), or beginning
+		// or ending with one: the documented wild cards are about the last component only
+		w := Pick(r, []string{"access", "lfsurl", "url", "pushurl", "fetchexclude", "locksverify"})
+		mid = Pick(r, []string{w, w + "ory", "x." + w, w + ".x", "my" + w})
+	}
 	if mid == "" {
 		return sec + "." + last
 	}
